@@ -278,21 +278,25 @@ structure FcgiBody (σ : Type) where
   cl : Nat
   reqId : Nat
 
+/-- `memcpy(p,&body_[body_ptr_],s); body_ptr_+=s; read_length_+=s;` and the clearing of a consumed `body_`:
+the chunk handed out and the new cursor state (the connection state is not touched) -/
+def fcgiAdvance {σ : Type} (want : Nat) (b : FcgiBody σ) : Bytes × FcgiBody σ :=
+  let s := min want (b.body.length - b.ptr)
+  let chunk := (b.body.drop b.ptr).take s
+  if b.ptr + s == b.body.length then (chunk, { b with ptr := 0, body := [], readLen := b.readLen + s })
+  else (chunk, { b with ptr := b.ptr + s, readLen := b.readLen + s })
+
 /-- the `body_ptr_ < body_.size()` branch of `fastcgi::async_read_some` -/
 def fcgiTake {σ : Type} (R : RecReader σ) (want : Nat) (b : FcgiBody σ) : Except Err (Bytes × FcgiBody σ) :=
-  let rest := b.body.length - b.ptr
-  let s := min want rest
-  let chunk := (b.body.drop b.ptr).take s
-  let b := { b with ptr := b.ptr + s, readLen := b.readLen + s }
-  let b := if b.ptr == b.body.length then { b with ptr := 0, body := [] } else b
-  if b.readLen ≥ b.cl then
-    match R.read b.st b.body with
+  let p := fcgiAdvance want b
+  if p.2.readLen ≥ p.2.cl then
+    match R.read p.2.st p.2.body with
     | (.err e, _) => .error e
     | (.crash _, _) => .error .violation
     | (.got h body', st') =>
-      if h.type != Gen.fcgi_stdin || h.requestId != b.reqId || h.contentLength != 0 then .error .violation
-      else .ok (chunk, { b with st := st', body := body' })
-  else .ok (chunk, b)
+      if h.type != Gen.fcgi_stdin || h.requestId != p.2.reqId || h.contentLength != 0 then .error .violation
+      else .ok (p.1, { p.2 with st := st', body := body' })
+  else .ok p
 
 /-- `fastcgi::async_read_some(p,s,h)` -/
 def fcgiReadSome {σ : Type} (R : RecReader σ) (want : Nat) (b : FcgiBody σ) : Except Err (Bytes × FcgiBody σ) :=
